@@ -10,6 +10,8 @@
 //	      r<h>.<j> pipeline instance h registers for request id j (fresh context + reply channel per instance)
 //	      c<h>     instance h completes / is cancelled: its recovery stage is gone, then its context is cancelled
 //	      x        a peer message that is not a vss.Signature
+//	      w        the watchdog ticks (schedules with a w run VerifQueryLoopTick, the copy of queryLoop with an
+//	               injected tick channel whose statement skeleton a theorem identifies with queryLoop's)
 //
 // Output:      h<h>=<tag,tag,…>;…   what each instance received on its reply channel, in order
 //
@@ -94,6 +96,8 @@ func parse(line string) (rids [][]byte, evs []ev) {
 			evs = append(evs, ev{kind: 'c', h: h.Atoi(t[1:])})
 		case 'x':
 			evs = append(evs, ev{kind: 'x'})
+		case 'w':
+			evs = append(evs, ev{kind: 'w'})
 		default:
 			panic("bad event " + t)
 		}
@@ -138,7 +142,19 @@ func run(rids [][]byte, evs []ev) map[int]*inst {
 	pd := doubles.NewP2P(id, 0)
 	node := dosnode.VerifNewNode(id, pd, nil, nil, 0, quiet)
 	loopDone := make(chan struct{})
-	go func() { node.VerifQueryLoop(); close(loopDone) }()
+	tick := make(chan time.Time)
+	ticks := false
+	for _, e := range evs {
+		ticks = ticks || e.kind == 'w'
+	}
+	go func() {
+		if ticks {
+			node.VerifQueryLoopTick(tick)
+		} else {
+			node.VerifQueryLoop()
+		}
+		close(loopDone)
+	}()
 	insts := map[int]*inst{}
 	get := func(k int) *inst {
 		if in, ok := insts[k]; ok {
@@ -165,6 +181,8 @@ func run(rids [][]byte, evs []ev) map[int]*inst {
 			deliver(&vss.Signature{RequestId: rids[e.j], Nonce: []byte(strconv.Itoa(i)), Content: []byte{1}, Signature: []byte{2}})
 		case 'x':
 			deliver(&vss.PublicKey{})
+		case 'w':
+			input(func() { tick <- time.Time{} })
 		case 'r':
 			in := get(e.h)
 			in.rids[e.j] = true
@@ -180,7 +198,10 @@ func run(rids [][]byte, evs []ev) map[int]*inst {
 					defer in.wg.Done()
 					for {
 						select {
-						case s := <-in.reply:
+						case s, ok := <-in.reply:
+							if !ok { // closed by the watchdog sweep
+								return
+							}
 							t, _ := strconv.Atoi(string(s.Nonce))
 							in.mu.Lock()
 							in.got = append(in.got, got{tag: t, rid: s.RequestId})
@@ -712,6 +733,8 @@ func gen(tier string, rng *h.Rng, emit func(string)) {
 			{3, 3, all6, 7},
 			{3, 2, []string{"r0.0", "c0", "r3.0", "r1.1", "x"}, 8},
 			{0, 3, all6, 6}, {1, 3, all6, 7}, {2, 3, all6, 7},
+			{4, 2, []string{"r0.0", "c0", "w", "r3.0", "c3"}, 9},
+			{3, 2, []string{"r0.0", "c0", "w", "r1.1", "c1", "r3.0"}, 8},
 		}
 	} else { // ≈2.4e5 schedules
 		spaces = []space{
@@ -721,6 +744,9 @@ func gen(tier string, rng *h.Rng, emit func(string)) {
 			{3, 2, []string{"r0.0", "c0", "r3.0", "r1.1"}, 7},
 			{2, 2, []string{"r0.0", "c0", "r3.0", "c3", "r1.1", "x"}, 6},
 			{0, 3, all6, 6}, {1, 3, all6, 7}, {2, 3, all6, 6},
+			// the watchdog sweep: before / after the cancellation, before / after a second pipeline of the same id
+			{3, 2, []string{"r0.0", "c0", "w", "r3.0"}, 7},
+			{2, 2, []string{"r0.0", "c0", "w", "r1.1", "c1"}, 6},
 		}
 	}
 	n := 0
@@ -772,8 +798,11 @@ func gen(tier string, rng *h.Rng, emit func(string)) {
 			case 2:
 				evs = append(evs, "c"+strconv.Itoa(rng.Intn(6)))
 			case 3:
-				if rng.Intn(3) == 0 {
+				switch rng.Intn(3) {
+				case 0:
 					evs = append(evs, "x")
+				case 1:
+					evs = append(evs, "w")
 				}
 			default:
 				evs = append(evs, "a"+strconv.Itoa(rng.Intn(nr)))
